@@ -281,6 +281,9 @@ func getRange(expr string, r bounds) (uint64, error) {
 
 	var extra uint64
 	if lowAndHigh[0] == "*" || lowAndHigh[0] == "?" {
+		if !singleDigit {
+			return 0, fmt.Errorf("wildcard cannot be a range bound: %s", expr)
+		}
 		start = r.min
 		end = r.max
 		extra = starBit
